@@ -140,6 +140,10 @@ def run_server_case(case):
                         p.writer.close()
                     elif end == "rst":
                         p.writer.transport.abort()
+                    elif end == "stay":
+                        # the peer keeps its socket open for good and never reads it: whatever
+                        # the server decided about the session, it cannot wait for this peer
+                        await asyncio.sleep(1e7)
                     else:
                         await asyncio.sleep(100.0)
                         p.writer.close()
@@ -162,6 +166,13 @@ def run_server_case(case):
                     for port, lst in net.listeners.items():
                         if lst.label == "hostile":
                             viol.append({"clause": "hostile-session-leaves-listener", "subject": "ledger", "detail": f"passive listener {port} of the hostile session still open"})
+                    for conn in list(world.server.connections.values()):
+                        try:
+                            lab = conn.command_connection.writer.transport.conn.label
+                        except Exception:
+                            lab = None
+                        if lab == "hostile":
+                            viol.append({"clause": "hostile-session-leaves-table-entry", "subject": "ledger", "detail": "the server has closed the hostile session's control connection, but the session is still in Server.connections"})
                     cur = asyncio.current_task(world.loop)
                     for t in asyncio.all_tasks(world.loop):
                         if t is cur or t is info.get("task") or t.done():
@@ -713,6 +724,13 @@ def main(argv=None):
                             g += 1
                             yield {"mode": "server", "seed": a.seed * 1000 + g, "hostile": ["CWD " + "A" * nbytes + term] + (["PWD\r\n"] if g % 3 == 0 else []), "end": end, "login_first": login_first, "scripts": ["idle" if g % 2 else "stor_retr"]}
             # a peer that floods commands, asks to QUIT and reads nothing, then goes away
+            # (or a hostile line behind the flood: the server ends the session while its replies
+            # are stuck in a peer that never reads and never closes)
+            for nflood in (40, 150):
+                for tail in ("\xff\xfe\r\n", "CWD " + "A" * 70000 + "\r\n"):
+                    for login_first in (False, True):
+                        g += 1
+                        yield {"mode": "server", "seed": a.seed * 1000 + g, "hostile": ["NOSUCHVERB " + "x" * 500 + "\r\n"] * nflood + [tail], "end": "stay", "login_first": login_first, "noread": True, "scripts": ["idle"]}
             for nflood in (5, 40):
                 for end in ("rst", "fin", "hold"):
                     for login_first in (False, True):
